@@ -92,14 +92,17 @@ def echo_case(value):
 # ---- C-STORE -----------------------------------------------------------------------------------
 def store_case(value):
     msg_id, sop, inst, pc_id, outcome, in_file, n = value
+    # in_file doubles as a switch: the request names a second served class than the one its context was
+    # negotiated for (the response must repeat the REQUEST's class)
+    sop_msg = (sop + '.9')[:64] if in_file and len(sop) < 62 else sop
     from pynetdicom2 import sopclass
     case = {'svc': 'storage_scp', 'msg_id': msg_id, 'sop': sop, 'inst': inst, 'pc_id': pc_id, 'outcome': outcome,
             'in_file': in_file, 'n': n}
     got = []
     ae = svc.make_server({'on_receive_store': outcome_handler(outcome, 'CStoreRSPMessage', got)},
-                         [alias(sopclass.storage_scp, [sop])])
-    data = svc.enc_ds(svc.simple_ds(PatientName='A^B', SOPClassUID=sop, SOPInstanceUID=inst))
-    reqs = [{0x0002: sop, 0x0100: 0x0001, 0x0110: (msg_id + k) & 0xFFFF, 0x0700: 0, 0x1000: inst} for k in range(n)]
+                         [alias(sopclass.storage_scp, sorted({sop, sop_msg}))])
+    data = svc.enc_ds(svc.simple_ds(PatientName='A^B', SOPClassUID=sop_msg, SOPInstanceUID=inst))
+    reqs = [{0x0002: sop_msg, 0x0100: 0x0001, 0x0110: (msg_id + k) & 0xFFFF, 0x0700: 0, 0x1000: inst} for k in range(n)]
     acc, fac, exc = run_primary(ae, [(pc_id, sop)], [(r, data, pc_id) for r in reqs])
     expect_clean(exc, case, 'C-STORE')
     rsps = fac.instances[0].sent_msgs()
